@@ -59,6 +59,9 @@ var netAlgProfile = func() [][2]string {
 }()
 
 func wrongKeyFor(r *Rng, spec SignerSpec) int {
+	if r.Chance(1, 6) {
+		return -100 - spec.Key // a key related to the right one (same X / same modulus)
+	}
 	switch r.Intn(7) {
 	case 6:
 		return -2 - r.Intn(2) // a malformed Ed25519 key
